@@ -9,6 +9,9 @@ CHECKS = {
  'C16': dict(text='Coq theorems: exact-grid model of PhaseShift (range, untouched coordinates, inverse, largest gap straddles the boundary for the computed centre, all N, all dimensions) and a binary64 theorem via Flocq/PrimFloat that the transform maps every finite double of [0,1) into [0,1); tied to the code by exact equality on grid inputs and bit-exact equality on boundary-directed doubles, both evaluated inside Coq by vm_compute',
              note='Trusted: Coq kernel; stdlib FloatAxioms and the Reals/classical axioms pulled in by Flocq for C16_float_range only; numpy remainder semantics written into the model and compared bit for bit. The float-level inverse bound is checked numerically (direct predicate), not proved.',
              tech='Coq proof (Z modular arithmetic; Flocq binary64) + in-Coq vm_compute correspondence'),
+ 'C13': dict(text='Coq theorems over ALL operation sequences and all oracle data accepted by the model (P_C13.v: record lengths agree, every ellipsoid keeps n_points_min points, clear may-split flag implies 2 n_min points, points of all ellipsoids plus trimmed ones are a permutation of the construction points, successful split does not increase the summed volume, refused operation changes nothing) about a Gallina model of Union.split/trim/sample bookkeeping, tied to the code by exhaustive enumeration of operation sequences (length <=4 quick, <=5 thorough, alphabet of 5) on real Union objects replayed through the extracted model with record equality after every operation',
+             note='Trusted: Coq kernel, extraction, derivation of oracle data from observables in harness/c13.py. GaussianMixture, MVEE and the overlap test are oracles whose outputs are checked by the model step. "No operation raises" is decided on the implementation (an exception is an unaccepted event). No axioms.',
+             tech='Coq proof (invariants by induction over operation lists) + exhaustive bounded-length differential replay'),
 }
 props = [json.loads(l) for l in open(os.path.join(V, 'properties.jsonl'))]
 NA = {}
